@@ -37,23 +37,30 @@ def computeFeeAmount (amount : Int) (bps : Nat) : Res Int :=
   else if fee ≤ 0 then .ok 0
   else .ok (fee / (Gen.bpsNormalizer : Int))
 
-/-- `FeeInfo.Validate`. -/
-def FeeInfo.validate (hrp : String) (f : FeeInfo) : Res Unit := do
+/-- The fee-type part of `FeeInfo.Validate`. -/
+def FeeInfo.checkType (f : FeeInfo) : Res Unit :=
   match f.feeType with
-  | .unset => (.err "fee:nil-type" : Res Unit)
+  | .unset => .err "fee:nil-type"
   | .amount v =>
     match newIntFromString v with
     | none => .err "fee:amount-nan"
-    | some i => if i ≤ 0 then .err "fee:amount-not-positive" else pure ()
-  | .bps v => if v == 0 || v > Gen.bpsNormalizer then .err "fee:bps-range" else pure ()
+    | some i => if i ≤ 0 then .err "fee:amount-not-positive" else .ok ()
+  | .bps v => if v == 0 || v > Gen.bpsNormalizer then .err "fee:bps-range" else .ok ()
+
+/-- The recipient part of `FeeInfo.Validate`. -/
+def FeeInfo.checkRecipient (hrp : String) (f : FeeInfo) : Res Unit :=
   match accAddressFromBech32 hrp f.recipient with
-  | some _ => pure ()
+  | some _ => .ok ()
   | none => .err "fee:recipient"
+
+/-- `FeeInfo.Validate`. -/
+def FeeInfo.validate (hrp : String) (f : FeeInfo) : Res Unit :=
+  f.checkType >>= fun _ => f.checkRecipient hrp
 
 /-- `FeeAttributes.Validate`. -/
 def validateFeeAttrs (hrp : String) (infos : List FeeInfo) : Res Unit := do
   if infos.length > Gen.maxFeeRecipients then (.err "fee:too-many" : Res Unit) else pure ()
-  infos.forM (FeeInfo.validate hrp)
+  Res.allM (FeeInfo.validate hrp) infos
 
 /-- One entry of `ComputeFeesToDistribute`: the amount this entry credits (possibly 0). The two panic
 sites are the method calls on a nil `math.Int` that unvalidated input would reach. -/
@@ -132,7 +139,7 @@ def RawPayload.validate (p : RawPayload) : Res Payload := do
   if p.preActions.any Option.isNone then (.err "payload:nil-action" : Res Unit) else pure ()
   let acts := p.preActions.filterMap id
   if hasDupIds (acts.map (·.id)) then (.err "payload:repeated-action" : Res Unit) else pure ()
-  acts.forM Action.validate
+  Res.allM Action.validate acts
   match p.forwarding with
   | none => .err "payload:nil-forwarding"
   | some f => do
@@ -142,7 +149,7 @@ def RawPayload.validate (p : RawPayload) : Res Payload := do
 /-- `Payload.Validate` on an already well-typed payload (dispatcher). -/
 def Payload.validate (p : Payload) : Res Unit := do
   if hasDupIds (p.preActions.map (·.id)) then (.err "payload:repeated-action" : Res Unit) else pure ()
-  p.preActions.forM Action.validate
+  Res.allM Action.validate p.preActions
   match p.forwarding with
   | none => .err "payload:nil-forwarding"
   | some f => f.validate
